@@ -2,6 +2,7 @@ package syntax
 
 import (
 	"bytes"
+	"math"
 	"sort"
 	"strconv"
 )
@@ -530,7 +531,20 @@ func (e *FloatExp) MarshalJSON() ([]byte, error) {
 		return []byte("null"), nil
 	}
 	var buf [68]byte
-	return strconv.AppendFloat(buf[:0], e.Value, 'g', -1, 64), nil
+	return appendJsonFloat(buf[:0], e.Value), nil
+}
+
+// appendJsonFloat formats a float the way encoding/json does: exponent form
+// only for very small or very large magnitudes.  In particular a value which
+// is an integer is written as one, so that an integral float literal bound
+// to an int parameter is delivered as something the int validator accepts
+// (1234567.0 would be "1.234567e+06" with %g).
+func appendJsonFloat(b []byte, f float64) []byte {
+	format := byte('f')
+	if abs := math.Abs(f); abs != 0 && (abs < 1e-6 || abs >= 1e21) {
+		format = 'e'
+	}
+	return strconv.AppendFloat(b, f, format, -1, 64)
 }
 
 func (e *FloatExp) jsonSizeEstimate() int {
@@ -543,7 +557,7 @@ func (e *FloatExp) EncodeJSON(buf *bytes.Buffer) error {
 		return err
 	}
 	var b [68]byte
-	_, err := buf.Write(strconv.AppendFloat(b[:0], e.Value, 'g', -1, 64))
+	_, err := buf.Write(appendJsonFloat(b[:0], e.Value))
 	return err
 }
 
